@@ -223,6 +223,68 @@ def tlc_trace(name, module, trace_file, cfg_text=None, devs="", timeout=1500, he
             "cmd": "TRACE=%s tlc -workers 1 -config %s %s" % (os.path.relpath(trace_file, VERIF), os.path.relpath(cfg, VERIF), os.path.relpath(mod, VERIF))}
 
 
+# ------------------------------------------------------------------ sharded trace validation
+import threading
+_TLC_SLOTS = threading.BoundedSemaphore(12)      # at most 12 single-worker TLC processes at a time (16 cores, 62 GB)
+
+
+def shard_trace(trace_file, max_events=50000, max_shards=24):
+    """Split an ndjson trace at case boundaries into files of about max_events lines.
+    Cases are independent of each other (every case event carries its schema and configuration).
+    Returns [(path, line_offset)]; the file itself when it is small."""
+    with open(trace_file) as f:
+        lines = f.readlines()
+    if len(lines) <= max_events * 3 // 2:
+        return [(trace_file, 0)]
+    per = max(max_events, -(-len(lines) // max_shards))
+    starts = [i for i, l in enumerate(lines) if '"ev":"case"' in l]
+    if not starts or starts[0] != 0:
+        return [(trace_file, 0)]
+    cuts, nxt = [0], per
+    for st in starts[1:]:
+        if st >= nxt:
+            cuts.append(st)
+            nxt = st + per
+    cuts.append(len(lines))
+    out = []
+    for k in range(len(cuts) - 1):
+        path = "%s.shard%02d" % (trace_file, k)
+        with open(path, "w") as g:
+            g.writelines(lines[cuts[k]:cuts[k + 1]])
+        out.append((path, cuts[k]))
+    return out
+
+
+def tlc_trace_sharded(name, module, trace_file, cfg_text=None, devs="", timeout=1500, heap="3g", extra_env=None):
+    """tlc_trace over the shards of a big trace, in parallel; positions are mapped back to lines of trace_file."""
+    import concurrent.futures
+    shards = shard_trace(trace_file)
+
+    def one(k, path):
+        with _TLC_SLOTS:
+            return tlc_trace(name if len(shards) == 1 else "%s.%02d" % (name, k), module, path, cfg_text, devs, timeout, heap, extra_env)
+    t0 = time.time()
+    try:
+        with concurrent.futures.ThreadPoolExecutor(max_workers=12) as ex:
+            rs = list(ex.map(lambda a: one(a[0], a[1][0]), enumerate(shards)))
+    finally:
+        for path, _ in shards:
+            if path != trace_file and os.path.exists(path):
+                os.remove(path)
+    if len(shards) == 1:
+        return rs[0]
+    res = {"name": name, "rejects": [], "knowns": [], "stats": [], "consumed": all(r["consumed"] for r in rs), "unconsumed": [],
+           "states": sum(r["states"] for r in rs), "wall_s": round(time.time() - t0, 1),
+           "cmd": rs[0]["cmd"] + "   (x %d shards of %s, in parallel)" % (len(shards), os.path.relpath(trace_file, VERIF))}
+    for r, (path, off) in zip(rs, shards):
+        for key in ("rejects", "knowns"):
+            for f in r[key]:
+                res[key].append([int(f[0]) + off] + list(f[1:]))
+        res["stats"] += r["stats"]
+        res["unconsumed"] += r["unconsumed"]
+    return res
+
+
 # ------------------------------------------------------------------ known findings
 def load_known(prop):
     """Lines of known_findings.txt: `known: property=<id> deviation=<NAME> <text>` (suppresses
